@@ -308,6 +308,7 @@ def r_feature(mod, rep, R='R5.2'):
     p = fp.args.args[1].arg
     wf = '%s:%s Feature.parse' % (REL, fp.lineno)
     tern = unary = False
+    unary_seen = None
     for st, ret in codec.returns_of(fp):
         conds = [(c, pol) for c, pol, _ in st.conds]
         both_f = ('and', (logic.formula(('cmp', 'in', C('='), N(p))), logic.formula(('cmp', 'in', C(','), N(p)))))
@@ -325,7 +326,9 @@ def r_feature(mod, rep, R='R5.2'):
                     tern = it == ('call', A(N(p), 'split'), (C(','),), ()) and not filt and pair[0] == 'call' and pair[1][0] == 'attr' \
                         and pair[1][2] == 'split' and is_elem(pair[1][1]) and pair[2] == (C('='),)
         elif logic.excluded(conds, both_f):
-            unary = ret == ('call', N('UnaryFeature'), (N(p),), ())
+            ok_u = ret == ('call', N('UnaryFeature'), (N(p),), ())
+            unary = ok_u if unary_seen is None else (unary and ok_u)        # on every such path: the text as given, unchanged
+            unary_seen = True
     rep.check(tern, R, wf, 'feature:parse-ternary', 'text with both separators is split on , and = into a three-part feature', 'Feature.parse does not split on , and = for the three-part form')
     rep.check(unary, R, wf, 'feature:parse-unary', 'any other text becomes a plain feature with that text', 'Feature.parse does not fall back to UnaryFeature(text)')
     # atom: base, or base[feature]
